@@ -32,17 +32,24 @@ LEVEL_TEXT = ('Real StaticSmtpRelay, StaticLmtpRelay and HttpRelay pools (pool_s
               'none or 0.03 s) driven by 1..12 concurrent attempt() callers in seeded bursts against a scripted next '
               'hop with refused connects, closes at scripted stages, 421 pushed on idle connections, per-transaction '
               '4xx/5xx, slow replies, and gates at connect / QUIT / end-of-data / idle released in seeded order '
-              '(callers arriving while a client is connecting or exiting). Held = none of the six oracle clauses '
+              '(callers arriving while a client is connecting or exiting), one-at-a-time "trickle" arrivals that meet '
+              'idling clients, and self-timed callers aimed at the instant a client\'s idle timer expires. Held = none of the six oracle clauses '
               'violated on the schedules reported in the evidence (distinct interleavings counted); not a proof over '
               'all interleavings. Idle expiry is real-time (0.03 s), so which caller meets an expiring client varies '
               'between replays.')
 LEVEL_NOTE = ('Trusted: vf.downstream.Downstream / HttpDown as independent observers (own parsers, own counters), '
               'pass-through observers (CountingDeque, Observed* relay subclasses) that only record, gevent.idle() '
               'quiescence detection, stranding predicates evaluated only in stable states and confirmed after the '
-              'idle timeout. Schedule control only via burst arrival and gate release order.')
+              'idle timeout. Schedule control only via burst arrival, caller-side timers and gate release order. '
+              'HttpRelay has no socket_creator: slimta.relay.http.get_connection is wrapped during a run so that the '
+              'real slimta.http.HTTPConnection connects over a socketpair to the scripted HTTP next hop (the shared '
+              'sandbox has no dependable loopback ports); everything above the socket is the real code. The three '
+              'HttpRelay findings were re-confirmed over real TCP against gevent.pywsgi (see reproducer).')
 TECHNIQUE = ('runtime monitoring: boundary records (next-hop connection/transaction log, reply tags, deque hooks) '
              'judged by a deterministic offline oracle; invariant at a hook for the deque; gated schedule exploration')
-RULE = ('case = (mode smtp|lmtp|http, pool_size, idle_timeout, ncallers, fault mix, pipelining, seed); fault '
+RULE = ('case = (mode smtp|lmtp|http, pool_size, idle_timeout, ncallers, fault mix, pipelining, arrival, seed); 40% '
+        'free configurations, 60% focused strata (server-timeout requeue incl. unbounded pools, reset after failed '
+        'transactions, callers racing exiting/connecting clients); fault '
         'decisions are a pure hash of (seed, connection, transaction, stage); the harness plan (bursts, gate releases, '
         'naps) is drawn from the seed. non-trivial = bounded pool with more callers than pool_size and >= 1 applied '
         'fault or idle expiry; distinct by (mode, pool_size, idle, ncallers, fault mix)')
